@@ -17,7 +17,7 @@ ASSUMPTIONS = [
 CASES = {"quick": 5000, "thorough": 250000}
 MIN_CASES = {"quick": 1200, "thorough": 25000}
 REQUIRED_COUNTERS = ["predicate_vs_operation_checked", "refine_cells_should_split", "refine_cells_should_stay", "uniform_cells_judged",
-                     "grid_cells_judged", "grid_lines_inside_examined", "loop_rounds", "empty_map_cells", "at_threshold_cells", "layout:one_percent"]
+                     "grid_cells_judged", "grid_lines_inside_examined", "loop_rounds", "empty_map_cells", "at_threshold_cells", "layout:one_percent", "predicate_vs_operation_checked_after_retagging"]
 
 
 def setup(ctx):
@@ -103,3 +103,30 @@ def check(case, ctx):
         if not pred or b.num_rectangles > 150:
             break
         a = b
+    # a cell's 'fixed' tag changes between two queries on the same allocation (initial_allocation tags the cells of fixed
+    # modules, the tools untag them): predicate and operation must both follow the tag as it is NOW
+    a = a0
+    cands = [ra for ra in a.allocations if not ra.rect.fixed and len(ra.alloc) > 0 and all(v <= t for v in ra.alloc.values())]
+    if cands and au.predicted_size(a, ["refine", t, 1]) <= 200:
+        ctx.call(a.must_be_refined, t)
+        for ra in cands:
+            ra.rect.fixed = True
+        try:
+            for phase in ("tagged", "untagged"):
+                ok, pred = ctx.call(a.must_be_refined, t)
+                ok2, b = ctx.call(a.refine, t)
+                if not ok or not ok2:
+                    ctx.violation("operation_raised", f"after cells were {phase} fixed: {pred!r} / {b!r}; cells={al['cells']}")
+                    return
+                ctx.count("predicate_vs_operation_checked_after_retagging")
+                changed = signature(b) != signature(a)
+                if bool(pred) != changed:
+                    ctx.violation("predicate_disagrees", f"after {len(cands)} cell(s) were {phase} fixed on the same allocation: must_be_refined({t})={pred} but refine({t}) "
+                                                         f"{'changes' if changed else 'does not change'} the allocation; cells={al['cells']}")
+                    return
+                au.judge_decisions(ctx, a, b, ["refine", t, 1], scale, f"refine({t}) after cells were {phase} fixed on cells={al['cells']}")
+                for ra in cands:
+                    ra.rect.fixed = False
+        finally:
+            for ra in cands:
+                ra.rect.fixed = False
